@@ -34,12 +34,12 @@ package eval
 //@   ensures [value] freshS(result, val)
 //@ func MakeValueList
 //@   pure
-//@   ensures [list] fresh(result) && isList(result) && fresh(listOf(result))
+//@   ensures [list] fresh(result) && isList(result) && fresh(result.Value) && allocated(result.Value) && fresh(listOf(result)) && allocated(listOf(result))
 //@   ensures [empty-own] values == nil ==> len(listOf(result).Value) == 0 && fresh(listOf(result).Value)
 //@   ensures [given] values != nil ==> listOf(result).Value == values
 //@ func MakeValueSet
 //@   pure
-//@   ensures [empty-set] fresh(result) && isSet(result) && fresh(setOf(result)) && len(setOf(result).Value) == 0
+//@   ensures [empty-set] fresh(result) && isSet(result) && fresh(result.Value) && allocated(result.Value) && fresh(setOf(result)) && allocated(setOf(result)) && len(setOf(result).Value) == 0 && fresh(setOf(result).Value)
 //@ func MakeValueMap
 //@   pure
 //@   ensures [empty-map] fresh(result) && isMap(result) && fresh(mapOf(result)) && mapOf(result).Items != nil && fresh(mapOf(result).Items) && len(mapOf(result).Items) == 0
@@ -124,6 +124,7 @@ package eval
 //@   ensures [len] len(m.Value) == old(len(m.Value)) + 1
 //@   ensures [last] m.Value[len(m.Value)-1] == val
 //@   ensures [keep] forall(i, 0, old(len(m.Value)), m.Value[i] == old(m.Value[i]))
+//@   ensures [same-or-fresh-array] base(m.Value) == old(base(m.Value)) || fresh(m.Value)
 
 //@ func AddItemToValueMap
 //@   requires isMap(m) && mapOf(m).Items != nil
@@ -228,10 +229,10 @@ package eval
 //@   maypanic
 //@   requires isList(list) && assign != nil
 //@   modifies mapof(assign)
-//@   loop 0 invariant [result-own] isList(listResult) && fresh(listResult) && fresh(listOf(listResult)) && fresh(listOf(listResult).Value)
+//@   loop 0 invariant [result-own] isList(listResult) && own(listResult) && own(listResult.Value) && own(listOf(listResult)) && fresh(listOf(listResult).Value)
 //@ func whereSet
 //@   perwrite
 //@   maypanic
 //@   requires isSet(list) && assign != nil
 //@   modifies mapof(assign)
-//@   loop 0 invariant [result-own] isSet(setResult) && fresh(setResult) && fresh(setOf(setResult)) && fresh(setOf(setResult).Value)
+//@   loop 0 invariant [result-own] isSet(setResult) && own(setResult) && own(setResult.Value) && own(setOf(setResult)) && fresh(setOf(setResult).Value)
